@@ -34,7 +34,7 @@ def _sub_symbols(param, symbols_map):
     return param
 
 
-def load():
+def load(extra_gate_overrides=None):
     def _float(x):
         # floats are treated as the reals they denote: float(<exact real>) is the identity
         if isinstance(x, trig.Poly):
@@ -44,9 +44,9 @@ def load():
         return float(x)
     mat = src.shadow_load(MAT, {"sympy": trig.SYMPY, "np": trig.NUMPY, "__lit__": trig.lit, "float": _float},
                           transform=trig.wrap_literals)
-    gates = src.shadow_load(GATES, {"sympy": trig.SYMPY, "np": trig.NUMPY,
-                                    "get_free_symbols": _get_free_symbols,
-                                    "sub_symbols": _sub_symbols})
+    ov = {"sympy": trig.SYMPY, "np": trig.NUMPY, "get_free_symbols": _get_free_symbols, "sub_symbols": _sub_symbols}
+    ov.update(extra_gate_overrides or {})
+    gates = src.shadow_load(GATES, ov)
     gates_mod = types.SimpleNamespace(**{k: v for k, v in gates.__ns__.items() if not k.startswith("__")})
     mat_mod = types.SimpleNamespace(**{k: v for k, v in mat.__ns__.items() if not k.startswith("__")})
     builtin = src.shadow_load(BUILTIN, {"_gates": gates_mod, "_matrices": mat_mod})
